@@ -374,7 +374,9 @@ def strip_parsers(spec):
     for k in ("coerce", "add_missing_columns", "drop_invalid_rows"):
         s[k] = False
     if s.get("strict") == "filter":
-        s["strict"] = False
+        # "filter" = drop undeclared columns (docs: only columns in the schema are retained): with the
+        # parser off the retained object must therefore already pass strict=True
+        s["strict"] = True
     for c in s.get("columns", []):
         c["coerce"] = False
         c["default"] = None
